@@ -2,6 +2,8 @@ import TinsModel.Basic.CursorLemmas
 import TinsModel.Wire.RegistryLemmas
 import TinsModel.Wire.L2.Theorems
 import TinsModel.Wire.Ip.Theorems
+import TinsModel.Wire.Ip6.Theorems
+import TinsModel.Wire.Icmp.Theorems
 import TinsModel.Wire.Transport.Theorems
 import TinsModel.Wire.App.Theorems
 import TinsModel.Wire.Wifi.Theorems
